@@ -135,9 +135,11 @@ Proof.
 Qed.
 Print Assumptions C14_generated_atomic.
 
-(* the validators of the working tree that do more than check *)
+(* the validators of the working tree that do more than check: the two that link a new geometry (side) to
+   the cell; their setters are covered by C14_all_setters, not by the template theorem *)
 Theorem C14_check_only_validators :
-  map fst (filter (fun p => negb (check_only (snd p))) validator_table) = ["cell._link_geometry_to_cell"].
+  map fst (filter (fun p => negb (check_only (snd p))) validator_table)
+  = ["cell._link_geometry_to_cell"; "half_space._link_side_to_cell"].
 Proof. vm_compute. reflexivity. Qed.
 Print Assumptions C14_check_only_validators.
 
